@@ -12,6 +12,7 @@ NB == 64
 
 StageDefects(D, chains, S) ==
   IF S.kind = "error" THEN { <<S.stage, "projection_error">> }
+  ELSE IF S.kind = "parsed" THEN { <<S.stage, d>> : d \in ParsedDefects(D, S) }
   ELSE IF S.kind = "lattice" THEN { <<S.stage, d>> : d \in LatticeDefects(D, S) }
   ELSE IF S.kind = "cells" THEN { <<S.stage, d>> : d \in CellStateDefects(D, chains, S) }
   ELSE { <<S.stage, d>> : d \in VolStateDefects(D, chains, S) }
